@@ -163,8 +163,10 @@ def mutate(ctx, rng, m):
                                        *[a for a, _ in rng.sample(mc.attributes, rng.randint(1, min(2, len(mc.attributes))))])
         elif k == 'define_class':
             m.define_class('Fresh%d' % rng.randrange(10 ** 6), [('x', 'INTEGER'), ('y', 'STRING')])
-    except xtuml.MetaException:
-        return None
+    except (xtuml.MetaException, AttributeError):
+        # rejected (or the model's own earlier attribute surgery makes an instance
+        # unprintable): still followed by the observation of all other metamodels
+        return (k + '-raised', mc.kind)
     ctx.hit('Mutation.' + k)
     return (k, mc.kind)
 
@@ -224,7 +226,9 @@ def run_history(ctx, rng):
                 theirs = containers(other)
                 shared = set(mine) & set(theirs)
                 if shared:
-                    return log, ('shared-object/%s' % mine[sorted(shared)[0]].split()[0],
+                    cat = mine[sorted(shared)[0]]
+                    cat = cat.split('.')[-1] if '.' in cat else ' '.join(cat.split()[:-1]) or cat
+                    return log, ('shared-object/%s' % cat.replace(' ', '-'),
                                  'two builds share %s' % ', '.join(sorted(set(mine[i] for i in shared))[:4]))
             models.append([m, obs])
             log.append(('build', len(models)))
@@ -254,7 +258,7 @@ def run_history(ctx, rng):
 
 def run(ctx):
     rng = ctx.rng
-    for _ in range(ctx.share(1600 if ctx.tier == 'quick' else 60000)):
+    for _ in range(ctx.share(6400 if ctx.tier == 'quick' else 120000)):
         log, (key, what) = run_history(ctx, rng)
         if key:
             ctx.violation(key, what, case=dict(history=log))
